@@ -79,9 +79,19 @@ CHECKS["C09"] = {
             "the reference model after every operation. Evidence, not proof.",
     "note": "reference p-values use a clone of the configured test object; NaN-valued contests exempt from the maximum comparison",
 }
+CHECKS["C16"] = {
+    "engine": "AuditWorld", "ref": "DESIGN.md 4 (C16)",
+    "technique": "deterministic simulation of the schedule each estimate assumes (pilot pattern repeated, overstatements at the "
+                 "assumed positions, tallies interleaved) through the real audit pipeline: predicted completion time must equal "
+                 "the observed one; seeded (seed, reps, quantile) on the numpy RandomState seam for the prefix clause; "
+                 "shrinking + replay",
+    "text": "seeded search over staged worlds, tests, risk limits, rates, tallies and simulation seeds; each estimate is compared "
+            "with the first-crossing time of the real p-value history on the constructed schedule. Evidence, not proof.",
+    "note": "overstatement positions follow int(1/rate); interleaved order is the library's own (counts checked separately); "
+            "card-level staging for assorters with upper bound 1; one known finding (prefix crossing only by the final-sample clamp)",
+}
 # claimed in DESIGN.md but not built yet: listed as not applicable *for now* with the honest reason
 NA_EXTRA = {
-    "C16": "check under construction (DESIGN 4)",
     "C17": "check under construction (DESIGN 4)",
     "C18": "check under construction (DESIGN 4)",
     "C19": "check under construction (DESIGN 4)",
